@@ -289,7 +289,7 @@ pub fn main() {
         engine::finish_replay(PROP, p, r);
     }
     let g = grid();
-    let random_cases = args.scale(30_000, 20) as u32;
+    let random_cases = args.scale(100_000, 8) as u32;
     let acc = engine::parallel(&args, PROP, |w, workers, acc| {
         for (i, c) in g.iter().enumerate() {
             if i % workers == w {
